@@ -358,6 +358,12 @@ func genBaseTime() time.Time {
 	}
 }
 
+// white space that Go's strings.Fields / unicode.IsSpace accept besides ' '
+var wsSeparators = [][]byte{
+	[]byte("\t"), []byte("\n"), []byte("\v"), []byte("\f"), []byte("\r"), []byte("\r\n"), []byte("\n\n"), []byte("\t "),
+	{0xC2, 0xA0}, {0xC2, 0x85}, {0xE2, 0x80, 0x83}, {0xE2, 0x80, 0xA8}, {0xE3, 0x80, 0x80}, {0xE1, 0x9A, 0x80},
+}
+
 // chooseMode writes the mode file.  asof candidates sit around the begin day
 // of the first count file and around the week end.
 func (s *scen) chooseMode(ref, refEnd time.Time, exact bool) {
@@ -431,6 +437,44 @@ func (s *scen) chooseMode(ref, refEnd time.Time, exact bool) {
 	}
 	var c []byte
 	c = append(c, word...)
+	if rnd.Intn(5) == 0 {
+		// white space other than one ASCII space after the mode word: what
+		// precedes the first space (after trimming) is then NOT the bare word, so
+		// the file does not record on / off / local exactly, unless nothing follows
+		sep := Pick(rnd, wsSeparators)
+		if rnd.Bool() { // every separator after each of the three mode words
+			word = Pick(rnd, []string{"on", "on", "off", "local"})
+			s.modeWord = word
+		}
+		var tail string
+		switch rnd.Intn(5) {
+		case 0:
+			tail = "" // only trailing white space: still the bare word
+		case 1:
+			tail = "# set by provisioning"
+		case 2:
+			tail = dateStr(asof) + " extra"
+		default:
+			tail = dateStr(asof)
+		}
+		if !hasAsof && tail != "" {
+			tail = "# comment"
+		}
+		c = append(c, sep...)
+		c = append(c, tail...)
+		out.Note("modefile-ws-separator")
+		out.Note("modefile-ws-separator-" + strings.Map(func(r rune) rune {
+			if r < 33 || r > 126 {
+				return '?'
+			}
+			return r
+		}, word))
+		if tail == "" {
+			out.Note("modefile-ws-trailing-only")
+		}
+		s.writeMode(c)
+		return
+	}
 	if hasAsof {
 		switch rnd.Intn(16) {
 		case 0:
